@@ -112,7 +112,9 @@ fn seeds(seed: u64, k: usize) -> Vec<Option<u64>> {
 }
 
 pub fn run(tier: &str, seed: u64, out: &str, exe: &str) {
-    let rep = Report::new("C13", tier, seed);
+    let mut rep = Report::new("C13", tier, seed);
+    // every violation is replayed twice on the real binary (up to the horizon each): a handful is evidence enough
+    rep.max_violations = 6;
     let thorough = tier == "thorough";
     let us = units();
     let l = if thorough { 4 } else { 3 };
